@@ -39,17 +39,43 @@ Proof.
   replace (S (List.length r) - 1)%nat with (List.length r) by lia. reflexivity.
 Qed.
 
-(* ---------- SectionParser.strip_brackets (Some: no IndexError on any input) ---------------- *)
-Theorem strip_brackets_pin : forall x, Some (strip_brackets x) = py_strip_brackets x.
+(* ---------- SectionParser.strip_brackets (Some: no IndexError on any input, and the fuel
+   S (len x) of the translated recursion never runs out: every call drops at least the two
+   bracket characters) ---------------------------------------------------------------------- *)
+Lemma lstrip_by_len_le f : forall s : list N, (List.length (lstrip_by f s) <= List.length s)%nat.
+Proof. induction s as [|c s IH]; cbn [lstrip_by List.length]; [lia|]. destruct (f c); cbn [List.length]; lia. Qed.
+
+Lemma strip_len_le : forall s : list N, (List.length (strip s) <= List.length s)%nat.
 Proof.
-  intros x. unfold strip_brackets, py_strip_brackets.
+  intros s. unfold strip, strip_by, rstrip_by. rewrite rev_length.
+  pose proof (lstrip_by_len_le is_space (rev (lstrip_by is_space s))) as H1.
+  pose proof (lstrip_by_len_le is_space s) as H2. rewrite rev_length in H1. lia.
+Qed.
+
+Lemma removelast_len b (r : list N) : List.length (removelast (b :: r)) = List.length r.
+Proof.
+  revert b. induction r as [|c r IH]; intros b; [reflexivity|].
+  change (removelast (b :: c :: r)) with (b :: removelast (c :: r)). cbn [List.length]. rewrite IH. reflexivity.
+Qed.
+
+Lemma strip_brackets_fuel_pin : forall n x, (List.length x < n)%nat ->
+  Some (strip_brackets_fuel n x) = py_strip_brackets_fuel n x.
+Proof.
+  induction n as [|n IH]; intros x Hn; [lia|].
+  cbn [strip_brackets_fuel py_strip_brackets_fuel]. cbv zeta.
+  pose proof (strip_len_le x) as Hs.
   destruct (strip x) as [|a [|b r]]; [reflexivity|reflexivity|].
   assert (Hlen : (2 <=? pyo_len (a :: b :: r))%Z = true)
     by (unfold pyo_len; cbn [List.length]; lia).
   rewrite Hlen, pyo_item_first, pyo_item_last, pyo_slice_inner.
   set (z := last (a :: b :: r) 0). cbn [obind str_eqb tl].
-  destruct (a =? 91); destruct (z =? 93); destruct (a =? 40); destruct (z =? 41); reflexivity.
+  assert (Hrec : Some (strip_brackets_fuel n (removelast (b :: r))) = py_strip_brackets_fuel n (removelast (b :: r))).
+  { apply IH. rewrite removelast_len. cbn [List.length] in Hs. lia. }
+  destruct (a =? 91); destruct (z =? 93); destruct (a =? 40); destruct (z =? 41); cbn [andb orb]; try reflexivity; exact Hrec.
 Qed.
+
+Theorem strip_brackets_pin : forall x, Some (strip_brackets x) = py_strip_brackets x.
+Proof. intros x. unfold strip_brackets, py_strip_brackets. apply strip_brackets_fuel_pin. lia. Qed.
 
 (* ---------- HeaderItem.useful_mnemonic -------------------------------------------------------- *)
 Theorem useful_pin : forall orig, SectionParse.useful orig = py_useful_mnemonic orig.
